@@ -47,3 +47,107 @@ def rule_filter_predicates(chk, idx, rid, mod_prefix, floor=1):
     ctl = ast.parse('def f(ers, bad):\n    for b in bad:\n        ers = [e for e in ers if not overlaps(b, bad)]\n    return ers\n').body[0]
     fired = any(not (_names(p) & bnd) for _, bnd, p, _ in filter_predicates(ctl))
     chk.control(rid, fired)
+
+
+# ---------------------------------------------------------------------------------------------------------------
+# regex group names read by the code exist in the patterns
+
+import re as _re
+
+_LANGS = ('english', 'spanish', 'french', 'portuguese', 'german', 'italian', 'dutch', 'chinese', 'japanese', 'korean',
+          'turkish', 'hindi', 'arabic', 'swedish')
+
+GROUP_EXEMPT = {
+    # (package, group): reason - read by hand, re-validated: the exemption only applies while the name is undefined
+    ('recognizers_date_time', 'heures'): "FrenchTimeParserConfiguration.adjust_by_suffix reads 'heures' where the pattern names "
+                                         "the group 'oclock'; the .NET source has the same slip and the branch it guards only "
+                                         "skips the am/pm adjustment, which is a no-op for an o'clock suffix",
+}
+
+
+def defined_groups(idx, R, pkg):
+    """{language or 'base': set(group names)} over the generated resource classes of one package"""
+    out = {}
+    for m in idx.mods.values():
+        if not m.name.startswith(pkg + '.resources.'):
+            continue
+        lang = m.name.rsplit('.', 1)[-1].split('_')[0]
+        for c in m.classes.values():
+            for k, v in R.values(c).items():
+                texts = []
+                if isinstance(v, str):
+                    texts.append(v)
+                elif hasattr(v, 'fill') and hasattr(v, 'params'):
+                    try:
+                        texts.append(v.fill(*(['X'] * len(v.params))))
+                    except Exception:
+                        pass
+                for t in texts:
+                    for g in _re.findall(r'\(\?P?<([A-Za-z_][A-Za-z0-9_]*)>', t):
+                        out.setdefault(lang, set()).add(g)
+    return out
+
+
+def _constants(idx, pkg):
+    consts = {}
+    for m in idx.mods.values():
+        if m.name.startswith(pkg + '.') and m.name.endswith('.constants'):
+            for c in m.classes.values():
+                for k, v in c.attrs.items():
+                    if isinstance(v, ast.Constant) and isinstance(v.value, str):
+                        consts[(c.name, k)] = v.value
+    return consts
+
+
+def rule_group_names(chk, idx, R, rid, pkg, module_filter=None, floor=1):
+    """every group name the hand-written code reads from a match (get_group / group / captures / start / end with a
+    literal or Constants.* name) is defined by at least one pattern of the package - of the module's own language (or a
+    Base* class) for per-language modules.  A misspelt or renamed group silently reads as '' and the field decodes to
+    nothing."""
+    chk.rule(rid, 'regex group names read by the code are defined by the patterns of the package / language', floor=floor,
+             control=True)
+    defined = defined_groups(idx, R, pkg)
+    if not defined:
+        from .core import AnalysisError
+        raise AnalysisError('no resource classes found for %s' % pkg)
+    everything = set().union(*defined.values())
+    consts = _constants(idx, pkg)
+    for mod, cls, fn in idx.functions():
+        if not mod.name.startswith(pkg + '.') or '.resources.' in mod.name:
+            continue
+        if module_filter is not None and not module_filter(mod.name):
+            continue
+        lang = next((l for l in _LANGS if ('.%s.' % l) in mod.name + '.'), None)
+        pool = (defined.get(lang, set()) | defined.get('base', set())) if lang else everything
+        q = (cls.name + '.' if cls else '') + fn.name
+        seen = set()
+        for n in ast.walk(fn):
+            if not isinstance(n, ast.Call) or not isinstance(n.func, ast.Attribute):
+                continue
+            f = n.func
+            arg = None
+            if f.attr in ('get_group', 'get_group_list') and len(n.args) >= 2:
+                arg = n.args[1]
+            elif f.attr in ('group', 'captures') and len(n.args) == 1:
+                arg = n.args[0]
+            if arg is None:
+                continue
+            val = None
+            if isinstance(arg, ast.Constant) and isinstance(arg.value, str):
+                val = arg.value
+            elif isinstance(arg, ast.Attribute) and isinstance(arg.value, ast.Name):
+                val = consts.get((arg.value.id, arg.attr))
+            if val is None or not _re.fullmatch(r'[A-Za-z_][A-Za-z0-9_]*', val) or (q, val) in seen:
+                continue
+            seen.add((q, val))
+            construct = '%s reads group %r' % (q, val)
+            if val in pool:
+                chk.ok(rid, mod.path, construct, 'defined', n.lineno)
+            elif (pkg, val) in GROUP_EXEMPT:
+                chk.exempt(rid, mod.path, construct, GROUP_EXEMPT[(pkg, val)], 'undefined', n.lineno)
+            else:
+                chk.bad(rid, mod.path, construct, 'undefined in %s' % (lang or 'any language'),
+                        '%s reads the regex group %r, which no pattern of %s defines: the read always yields the empty '
+                        'string and the field it decodes is silently lost'
+                        % (q, val, ('the %s resources' % lang) if lang else 'the package'), n.lineno)
+    chk.control(rid, 'no_such_group_name' not in everything)
